@@ -220,6 +220,7 @@ func init() {
 			guard(r, func() {
 				ruleFootprint(r, "E.footprint", footSel("(*column.Txn).With", "(*column.Txn).Union", "(*column.Txn).Count", "(*column.Txn).Range", "(*column.Txn).Ascend", "(*column.Txn).DeleteAt", "(*column.Txn).DeleteAll", "(column.rdNumber[T])."), 12)
 			})
+			guard(r, func() { ruleFilterCacheKey(r) })
 			guard(r, func() { ruleExtremeFold(r) })
 			guard(r, func() { ruleAccumulatorsFromZero(r) })
 			guard(r, func() { ruleInitializeFirst(r) })
@@ -364,6 +365,7 @@ func init() {
 			guard(r, func() { ruleStorageArms(r) })
 			guard(r, func() { ruleL1(r, backfillExempt) })
 			guard(r, func() { ruleMergeQueued(r) })
+			guard(r, func() { ruleRecordMerge(r) })
 			guard(r, func() { ruleMergeReentrant(r) })
 			guard(r, func() { ruleUnits(r, "C09.units", unitsText, 10, applyUnitFns("numeric", "string")) })
 			guard(r, func() { foundation(r) })
